@@ -14,6 +14,7 @@ import importlib.util
 import os
 import random
 import re
+import signal
 import subprocess
 
 from . import pyprims, pyobj, pybytes, pyrand
@@ -72,7 +73,8 @@ CTORS = [
       ('clientAesKeyId', 'self.client_aes_key_id', B), ('serverAesKeyId', 'self.server_aes_key_id', B)]),
 ]
 # methods: (class, method, argument types); each also gets a wrapper `<Class>_<m>_obj` taking the Lean structure of the object
-METHODS = [('AdnlChannel', 'encrypt', [B]), ('AdnlChannel', 'decrypt', [B, B]), ('Client', 'sign', [B]), ('Client', 'get_key_id', [])]
+METHODS = [('AdnlChannel', 'encrypt', [B]), ('AdnlChannel', 'decrypt', [B, B]), ('Client', 'sign', [B]), ('Client', 'get_key_id', []),
+           ('Client', 'get_aes_key_id', [])]
 
 SIGNATURE_PRIMS = [
     Prim('VerifyKey(__k__)', {'k': B}, '{k}', VKEY),
@@ -549,7 +551,7 @@ def py_case(mods, case):
                          hx(ch.server_channel.ed25519_public.encode()), hx(ch.server_channel.x25519_public.encode()),
                          hx(ch.channel_shared), hx(ch.enc_key), hx(ch.dec_key), hx(ch.client_aes_key_id), hx(ch.server_aes_key_id),
                          _oh(_try(lambda: ch.encrypt(m))), _oh(_try(lambda: ch.decrypt(m, sm))), _oh(_try(lambda: ca.sign(m))),
-                         _oh(_try(lambda: ca.get_key_id()))])
+                         _oh(_try(lambda: ca.get_key_id())), _oh(_try(lambda: ca.get_aes_key_id()))])
     if kind == 'cipher':
         c = _try(lambda: C.create_aes_ctr_sipher_from_key_n_data(a[0], a[1]))
         return 'err' if c is None else f'{hx(c.k)}:{hx(c.iv)}'
@@ -575,6 +577,16 @@ def py_case(mods, case):
         fake = _StreamOs(stream)
         saved = K.os, K.words
         K.os = fake
+
+        def _stop(*_):
+            raise TimeoutError('the code under test did not return')
+        # a loop of the (possibly changed) source that neither draws nor ends would hang the check: 3 s per case, read as "raises / still
+        # running" (= `none` of the Lean definition, whose budget is used up)
+        try:
+            old_handler = signal.signal(signal.SIGALRM, _stop)
+            signal.setitimer(signal.ITIMER_REAL, 3.0)
+        except ValueError:                                # not the main thread: no guard
+            old_handler = None
         try:
             if kind == 'rn':
                 v = _try(lambda: K.get_secure_random_number(a[0], a[1]))
@@ -583,6 +595,9 @@ def py_case(mods, case):
             ws = _try(lambda: K.mnemonic_new(a[1]))
             return 'err' if ws is None else f'{".".join(ws) or "-"} {fake.draws}'
         finally:
+            if old_handler is not None:
+                signal.setitimer(signal.ITIMER_REAL, 0)
+                signal.signal(signal.SIGALRM, old_handler)
             K.os, K.words = saved
     if kind == 'iand':
         return str(a[0] & a[1])
@@ -648,9 +663,9 @@ def modelNew (words : List Nat) (rnd : Nat → Bytes) (wc inner : Nat) : Nat →
 def genChan (a b ida idb : Bytes) : Option (Client × Server × Channel) :=
   (Client_init toyP a).bind fun ca => (Client_init toyP b).bind fun cb => (Server_init toyP () 0 cb.edPub).bind fun s =>
     (AdnlChannel_init toyP ca s ida idb).map fun ch => (ca, s, ch)
-def showChan (ca : Client) (s : Server) (ch : Channel) (enc dec sig kid : Option Bytes) : String :=
+def showChan (ca : Client) (s : Server) (ch : Channel) (enc dec sig kid akid : Option Bytes) : String :=
   " ".intercalate [dashHex ca.edPriv, dashHex ca.edPub, dashHex ca.xPriv, dashHex ca.xPub, dashHex s.edPub, dashHex s.xPub,
-    dashHex ch.shared, dashHex ch.encKey, dashHex ch.decKey, dashHex ch.clientAesKeyId, dashHex ch.serverAesKeyId, oh enc, oh dec, oh sig, oh kid]
+    dashHex ch.shared, dashHex ch.encKey, dashHex ch.decKey, dashHex ch.clientAesKeyId, dashHex ch.serverAesKeyId, oh enc, oh dec, oh sig, oh kid, oh akid]
 /-- what the REGENERATED definitions compute on one case -/
 def runGen (ws : List String) : Option String :=
   match ws with
@@ -659,7 +674,7 @@ def runGen (ws : List String) : Option String :=
     match genChan a b ida idb with
     | none => pure "err"
     | some (ca, s, ch) => pure (showChan ca s ch (AdnlChannel_encrypt_obj toyP ch m) (AdnlChannel_decrypt_obj toyP ch m sm)
-        (Client_sign_obj toyP ca m) (Crypto_get_key_id_obj toyP ca))
+        (Client_sign_obj toyP ca m) (Crypto_get_key_id_obj toyP ca) (Crypto_get_aes_key_id_obj toyP ca))
   | ["cipher", k, d] => do
     let k ← hexArg k; let d ← hexArg d
     pure (opr (create_aes_ctr_sipher_from_key_n_data toyP k d))
@@ -692,7 +707,7 @@ def runModel (ws : List String) : Option String :=
     let ca := Client.new toyP a
     let s := Server.new toyP (Client.new toyP b).edPub
     let ch := Channel.new toyP ca s ida idb
-    pure (showChan ca s ch (ch.encrypt toyP m) (ch.decrypt toyP m sm) (some (getSignature toyP ca.edPriv m)) (some (keyId toyP ca.edPub)))
+    pure (showChan ca s ch (ch.encrypt toyP m) (ch.decrypt toyP m sm) (some (getSignature toyP ca.edPriv m)) (some (keyId toyP ca.edPub)) (some (keyAesId toyP ca.edPriv)))
   | ["cipher", k, d] => do
     let k ← hexArg k; let d ← hexArg d
     pure (opr (cipherParams k d))
@@ -754,7 +769,7 @@ def lean_eval(cases, mode):
 
 CHAN_OUT = ['Client.ed25519_private', 'Client.ed25519_public', 'Client.x25519_private', 'Client.x25519_public', 'Server.ed25519_public',
             'Server.x25519_public', 'channel_shared', 'enc_key', 'dec_key', 'client_aes_key_id', 'server_aes_key_id', 'encrypt', 'decrypt',
-            'Client.sign', 'get_key_id']
+            'Client.sign', 'get_key_id', 'get_aes_key_id']
 MN_OUT = ['mnemonic_is_valid', 'is_basic_seed', 'mnemonic_to_entropy', 'mnemonic_to_seed', 'mnemonic_to_private_key', 'mnemonic_to_wallet_key']
 
 
